@@ -715,6 +715,8 @@ func (c *Compiler) fork(
 
 	if modulePath == c.modulePath {
 		child.indent = c.indent
+		// a function literal is a part of the expression it is in.
+		child.sharedExpr = c.sharedExpr
 	}
 	return child
 }
